@@ -1451,7 +1451,7 @@ func TestC12(t *testing.T) {
 			"queue capacity is only required to stay >= Len and >= the initial capacity; growth/shrink steps are counted, not prescribed",
 			"Queue.Wait returning true after having blocked is accepted whatever the state (the statement does not cover it)",
 		},
-		Cases:       map[string]int{"quick": 4000, "thorough": 60000},
+		Cases:       map[string]int{"quick": 4000, "thorough": 40000},
 		CaseTimeout: 120 * time.Second,
 		RequireCounters: []string{"scenario_steady", "scenario_flush", "scenario_noflush", "scenario_slow", "scenario_fail",
 			"timer_mode_cases", "write_delay_goroutine_mode_cases", "no_write_delay_cases", "latency_yield", "latency_sleep",
